@@ -588,6 +588,30 @@ func (p *impPkg) translateFunc(name string) string {
 	return b.String()
 }
 
+// impOnly restricts runImp to one sub-pass (the basename of the output file; all Exp_<pkg> files form the sub-pass "Exp")
+var impOnly string
+
+func impPassOf(out string) string {
+	b := strings.TrimSuffix(filepath.Base(out), ".lean")
+	if strings.HasPrefix(b, "Exp_") || b == "ExpAll" {
+		return "Exp"
+	}
+	return b
+}
+
+// impPasses lists the sub-passes of the imperative mode in a fixed order
+func impPasses() []string {
+	var res []string
+	seen := map[string]bool{}
+	for _, tg := range impTargets {
+		if p := impPassOf(tg.out); !seen[p] {
+			seen[p] = true
+			res = append(res, p)
+		}
+	}
+	return res
+}
+
 func runImp() {
 	// Element.Exp of every field package (template-generated: the texts must be identical up to the package name, which the
 	// generated `rfl` lemmas of Gen/Imp/ExpAll.lean check)
@@ -602,6 +626,9 @@ func runImp() {
 		targets = append(targets, impTarget{dir: d, file: "element.go", ns: "Exp_" + n, out: "Imp/Exp_" + n + ".lean", funcs: []string{"Exp"}, elem: "Element"})
 	}
 	defer func() {
+		if impOnly != "" && impOnly != "Exp" {
+			return
+		}
 		var b strings.Builder
 		b.WriteString("/- GENERATED by tools/goslp (imp.go) on every run. DO NOT EDIT.\n   Element.Exp of the 23 field packages: every translation is the same Lean term as the one of ecc/bn254/fr (match lemmas by rfl). -/\n")
 		for _, n := range expNames {
@@ -627,6 +654,9 @@ func runImp() {
 		writeFile("Imp/ExpAll.lean", b.String())
 	}()
 	for _, tg := range targets {
+		if impOnly != "" && impPassOf(tg.out) != impOnly {
+			continue
+		}
 		impAbsParams, impAbsArgs = "", ""
 		if tg.elem != "" {
 			impAbsParams, impAbsArgs = " {F : Type} (mul : F → F → F) (one : F) (inv : F → F)", " mul one inv"
